@@ -54,11 +54,7 @@ Check (C03_check_value_sound : forall S vars, schema_wf S = true -> forall v t,
 Check (C03_guard_satisfiable :
   schema_wf w_schema_0 = true /\ check_operation_document w_schema_0 w_doc_14 = []
   /\ Nat.ltb 40 (length (flat_map (vis_op_sites w_schema_0 w_doc_14) (doc_ops w_doc_14))) = true).
-Check (C03_sound_full_refuted :
-  ~ (forall S D, schema_wf S = true -> check_operation_document S D = [] -> forall r, rule_ok S D r = true)).
 Check (C03_type_compat_is_AreTypesCompatible : forall vt et, type_compat vt et = types_compatible vt et).
-Check (C03_unspread_fragment_refuted :
-  exists S D, check_operation_document S D = [] /\ rule_ok S D R_fields_exist = false).
 Check (C03_same_interface_now_flagged :
   (exists p i, check_operation_document w_schema_0 w_doc_1 = [mkErr (FieldNotFound (s "nonexistent") (s "I")) p i])
   /\ length (check_operation_document w_schema_0 w_doc_2) = 2).
@@ -72,10 +68,16 @@ Check (C03_fields_can_merge_not_checked :
   /\ fields_can_merge_ok w_schema_0 w_doc_18 = false
   /\ check_operation_document w_schema_0 w_doc_19 = [] /\ fields_can_merge_ok w_schema_0 w_doc_19 = false
   /\ fields_can_merge_ok w_schema_0 w_doc_14 = true).
-Check (C03_custom_scalar_variable_refuted :
-  exists S D, check_operation_document S D = [] /\ rule_ok S D R_vars_defined = false).
-Check (C03_duplicate_argument_refuted :
-  exists S D, check_operation_document S D = [] /\ rule_ok S D R_literal_types = false).
+Check (C03_unspread_fragment_now_flagged :
+  (exists p i, check_operation_document w_schema_0 w_doc_0 = [mkErr (FieldNotFound (s "nonexistent") (s "A")) p i])
+  /\ map (fun e => match e_msg e with
+                   | UnknownArgument _ => 1 | RecursingFragmentSpread _ => 2 | FieldNotFound _ _ => 3
+                   | TypeMismatch _ => 4 | UnknownVariable _ => 5 | _ => 0 end)
+         (check_operation_document w_schema_0 w_doc_25) = [1; 2; 3; 4]).
+Check (C03_custom_scalar_variable_now_flagged :
+  exists p i, check_operation_document w_schema_0 w_doc_3 = [mkErr (UnknownVariable (s "nope")) p i]).
+Check (C03_duplicate_argument_now_flagged :
+  exists t p i, check_operation_document w_schema_0 w_doc_4 = [mkErr (TypeMismatch t) p i]).
 Print Assumptions C03_sound_unique_op_names.
 Print Assumptions C03_sound_lone_anonymous.
 Print Assumptions C03_sound_unique_fragments.
@@ -94,12 +96,11 @@ Print Assumptions C03_sound_fragments.
 Print Assumptions C03_sound_directives.
 Print Assumptions C03_check_value_sound.
 Print Assumptions C03_guard_satisfiable.
-Print Assumptions C03_sound_full_refuted.
 Print Assumptions C03_type_compat_is_AreTypesCompatible.
-Print Assumptions C03_unspread_fragment_refuted.
 Print Assumptions C03_same_interface_now_flagged.
 Print Assumptions C03_int_range.
 Print Assumptions C03_int_range_flagged.
 Print Assumptions C03_fields_can_merge_not_checked.
-Print Assumptions C03_custom_scalar_variable_refuted.
-Print Assumptions C03_duplicate_argument_refuted.
+Print Assumptions C03_unspread_fragment_now_flagged.
+Print Assumptions C03_custom_scalar_variable_now_flagged.
+Print Assumptions C03_duplicate_argument_now_flagged.
